@@ -1093,6 +1093,19 @@ def ru_propagation(norb, nocc, nchol=1):
     eb = np.asarray(b["exp_h1"], dtype=object)
     out.append(H.identity(name + ".exp_h1.up", a["exp_h1"], eb[0], functions=fns, inputs=inp, t0=t0, note="same expm argument for the up block"))
     out.append(H.identity(name + ".exp_h1.dn", a["exp_h1"], eb[1], functions=fns, inputs=inp, t0=t0, note="same expm argument for the down block"))
+    if any(o["status"] == REFUTED for o in out):
+        # native replay at the numeric point of the symbols: the two real functions, with the real expm
+        an, bn = fr(dict(hx), wx_), fu(dict(hx), wx_)
+        devs = {".mf_shifts": float(np.abs(np.asarray(an["mf_shifts"]) - np.asarray(bn["mf_shifts"])).max()),
+                ".h0_prop": float(np.abs(np.asarray(an["h0_prop"]) - np.asarray(bn["h0_prop"])).max()),
+                ".exp_h1.up": float(np.abs(np.asarray(an["exp_h1"]) - np.asarray(bn["exp_h1"])[0]).max()),
+                ".exp_h1.dn": float(np.abs(np.asarray(an["exp_h1"]) - np.asarray(bn["exp_h1"])[1]).max())}
+        for o in out:
+            if o["status"] == REFUTED:
+                d = next(v for k, v in devs.items() if o["name"].endswith(k))
+                o["replayed"] = bool(d > 1e-10)
+                o["witness"] = dict(o.get("witness") or {}, native=dict(h1=np.asarray(hx["h1"]).tolist(), chol=np.asarray(hx["chol"]).tolist(), rdm1=np.asarray(wx_["rdm1"]).tolist(),
+                                                                          dt=0.01, max_abs_restricted_minus_unrestricted=d))
     return out
 
 
